@@ -55,3 +55,10 @@ Definition run_replace (v : val) : val :=
   let lt := if as_bool (fld 2 v) then LTCrlf else LTByte 10%N in
   let only := as_bool (fld 3 v) in
   of_bytes (concat (map (print_event template names lt only) (as_list (fld 4 v)))).
+
+Definition entry (k : N) (v : val) : option val :=
+  match k with
+  | 1901%N => Some (run_interpolate v)
+  | 1902%N => Some (run_replace v)
+  | _ => None
+  end.
